@@ -199,7 +199,6 @@ def hGateCdp : Handler
     | some sa, some la, some fs, some fl, some cz =>
       -- the property on the observation alone: the price this action values with must be there
       let needed := match action with
-        | "draw" => sa
         | "liquidate" => la
         | _ => sa && la
       if !needed && cls == "ok" then
@@ -215,7 +214,7 @@ def hGateCdp : Handler
         | "create" => cdpCreate price flags cp i
         | "deposit" => cdpDeposit flags cp i
         | "withdraw" => cdpWithdraw price flags cp i
-        | "draw" => cdpDraw price cp i
+        | "draw" => cdpDraw price flags cp i
         | "liquidate" => cdpLiquidate price cp i
         | "blockliq" => if beginSeizes price cp (control == "skip") then .ok () else .err
         | _ => .panic
